@@ -121,7 +121,7 @@ CLAIMS = {
          "sending on the new connection, resumed when possible, permanent error ends the loop, retries while refused, Stop returns Run.",
     note="Trusted: TLC, the scripted server, bounded waits (6 s for a new session, 0.5 s for 'no further attempt'; back-off delays are tens "
          "of milliseconds). TLS-policy permanent errors are exercised in C04's model, not here. Every fourth behaviour is also played over the WebSocket "
-         "transport, every ninth with a 15 ms keepalive (stale-keepalive interference), and with Stop() called during an outage.",
+         "transport, every ninth with a 15 ms keepalive (stale-keepalive interference), with Stop() called during an outage, and with the manager stopped and run again between losses (Restart action of the model).",
     technique=TECH),
  "C18": dict(
     text="Keepalive.tla models the keepalive goroutine with the select race between a ready tick and the closed quit channel, ping failure at "
